@@ -23,3 +23,6 @@ CFG = {'harness': 'det',
  'note': 'model = spec by C02_adc_exact, so a difference is an input on which the implementation departs from the '
          'documented layout/rules',
  'model': 'det'}
+
+# translator plugins this property needs besides the board tables of tools/gen.py (none)
+CFG["gen_plugins"] = []
